@@ -166,11 +166,12 @@ prop("C18", "a failed assign_in_place leaves a valid value",
 INTS = ["le_u16", "le_u32", "le_u64", "le_i16", "le_i32", "le_i64", "be_u16", "be_u32", "be_u64", "be_i16", "be_i32", "be_i64"]
 prop("C16", "portable scalars",
      "For all 12 portable integers, 4 floats and Bool, at full width (every value / every bit pattern): size, alignment 1, stored byte sequence == to_{le,be}_bytes, lossless round trip (floats by to_bits, NaN payloads included), equality == byte equality, Ord/PartialOrd, zero/one/min/max, to_u64/to_i64/to_usize, from_u64/from_i64/from_usize, NumCast, add/sub/neg/abs/signum at full width; mul/div/rem with operands below 256 x 128.",
-     ["mul/div/rem with operands >= 256 (full-width multipliers/dividers do not finish under bit-blasting; the operator bodies are one macro for all types)",
+     ["mul/div/rem with operands |x| >= 256 or |y| >= 128 in the quick tier, |x| >= 4096 or |y| >= 256 in the thorough tier (full-width multipliers/dividers do not finish under bit-blasting; the operator bodies are one macro for all types)",
       "overflowing operands (the native operator's own panic)", "from_str_radix, Display/Debug, serde", "f64 arithmetic; float mul/div/rem"],
      [H("port::%s::%s" % (t, f), 300, 6, "every value of the native type" if f != "muldiv" else "operands |x| < 256, |y| < 128", "portable %s vs native" % t)
       for t in INTS for f in ("repr", "addsub", "muldiv")]
-     + [H("port::%s::repr" % t, 300, 6, "every bit pattern", "portable float vs native") for t in ("le_f32", "le_f64", "be_f32", "be_f64")]
+     + [H("port::%s::muldiv_wide" % t, 900, 6, "operands |x| < 4096, |y| < 256", "portable %s mul/div/rem vs native, wider operands" % t, tier="thorough") for t in INTS]
+     + [H("port::%s::repr" % t, 300, 6, "every bit pattern; every u64 / i64 / usize for the integer conversions", "portable float vs native") for t in ("le_f32", "le_f64", "be_f32", "be_f64")]
      + [H("port::f32_arith::le_addsub", 300, 6, "every pair of f32 bit patterns", "Add/Sub/AddAssign bit-exact"),
         H("port::f32_arith::be_addsub", 300, 6, "every pair of f32 bit patterns", "Add/Sub bit-exact"),
         H("port::bool_::repr", 120, 4, "all 256 bytes, all bool pairs", "Bool validation, representation, operators")])
